@@ -141,6 +141,23 @@ def handle (op : String) (args : List String) : Option String := do
           pure (boolStr (sortNat got == sortNat want))
         | _ => none
       | _ => none
+  | "c16.holds.closest_scan" => do -- args: <class> id <depth> <kind> n prims… v(3) d2 : the index answer against the Lean model's
+      -- own closest distances of ALL elements (independent of the library's Scope / ClosestPoint); distance tolerance 1e-9
+      match args.drop 1 with
+      | idt :: rest =>
+        let i ← nat? idt
+        let (t, q) ← parseTree rest
+        match t, q with
+        | some t, [vx, vy, vz, d2] =>
+          let v : V3 Float := ⟨vx, vy, vz⟩
+          let ds := t.allElems.map fun e => (e.id, Float.sqrt ((e.prim.closestPoint v).DistanceSquared v))
+          let d := Float.sqrt d2
+          let tol := 1e-9 * (if 1.0 < d then d else 1.0)
+          let isMin := ds.all fun (_, di) => d ≤ di + tol
+          let own := ds.any fun (j, di) => j == i && (di - d).abs ≤ tol
+          pure (boolStr (isMin && own))
+        | _, _ => none
+      | _ => none
   | "c16.holds.closest" => do     -- args: <class> id d2 px py pz cx cy cz n d2_0 … d2_{n-1}
       match args.drop 1 with
       | idt :: rest =>
